@@ -10,7 +10,7 @@ void vc_copy(VC a, const VC b) { memcpy(a, b, sizeof(VC)); }
 void vc_tick(int tid) { T[tid].vc[tid]++; }
 
 /* ------------------------------------------------------------------ per-object sync clocks */
-typedef struct { void *obj; VC vc; int used; } SyncClk;
+typedef struct { void *obj; VC vc; int used; uint64_t hist; } SyncClk;
 #define NSYNC 4096
 static SyncClk syncs[NSYNC];
 VC *sync_clock(void *obj, int create)
@@ -21,10 +21,22 @@ VC *sync_clock(void *obj, int create)
     syncs[h].used = 1; syncs[h].obj = obj; memset(syncs[h].vc, 0, sizeof(VC));
     return &syncs[h].vc;
 }
+uint64_t ch_objects_acc;
+uint64_t ch_mix(uint64_t a, uint64_t b) { a ^= b + 0x9E3779B97F4A7C15ull + (a << 6) + (a >> 2); a *= 0xff51afd7ed558ccdull; a ^= a >> 33; return a; }
+static SyncClk *sync_entry(void *obj) { VC *v = sync_clock(obj, 1); return (SyncClk *)((char *)v - offsetof(SyncClk, vc)); }
+void ch_note(uint64_t v) { T[my_tid].ch = ch_mix(T[my_tid].ch, v); }
+void ch_observe(void *obj, uint64_t v) { SyncClk *e = sync_entry(obj); T[my_tid].ch = ch_mix(ch_mix(T[my_tid].ch, e->hist), v); }
+void ch_publish(void *obj, uint64_t v)
+{
+    SyncClk *e = sync_entry(obj); uint64_t key = (uint64_t)(uintptr_t)obj * 0x9E3779B97F4A7C15ull;
+    ch_objects_acc -= ch_mix(key, e->hist);
+    e->hist = ch_mix(ch_mix(e->hist, T[my_tid].ch), v);
+    ch_objects_acc += ch_mix(key, e->hist);
+}
 void sync_clock_drop(void *obj) { VC *v = sync_clock(obj, 0); if (v) memset(*v, 0, sizeof(VC)); }
-void mon_acquire_obj(void *obj) { VC *v = sync_clock(obj, 0); if (v) vc_join(T[my_tid].vc, *v); }
-void mon_release_obj(void *obj) { VC *v = sync_clock(obj, 1); vc_copy(*v, T[my_tid].vc); vc_tick(my_tid); }
-void mon_release_obj_join(void *obj) { VC *v = sync_clock(obj, 1); vc_join(*v, T[my_tid].vc); vc_tick(my_tid); }
+void mon_acquire_obj(void *obj) { VC *v = sync_clock(obj, 0); if (v) vc_join(T[my_tid].vc, *v); ch_observe(obj, 1); }
+void mon_release_obj(void *obj) { VC *v = sync_clock(obj, 1); vc_copy(*v, T[my_tid].vc); vc_tick(my_tid); ch_publish(obj, 2); }
+void mon_release_obj_join(void *obj) { VC *v = sync_clock(obj, 1); vc_join(*v, T[my_tid].vc); vc_tick(my_tid); ch_publish(obj, 3); }
 
 /* ------------------------------------------------------------------ names for reports */
 static struct { const char *lo; size_t len; const char *name; } names[64]; static int nnames;
@@ -205,18 +217,19 @@ static void atomic_store_sync(void *a, int mo, int is_rmw)
 #define ATOMIC_FAMILY(BITS, TYPE) \
 TYPE __tsan_atomic##BITS##_load(const volatile TYPE *a, int mo) { TYPE v; \
     sched_point(OP_ATOMIC, (void *)a, 0); access_bytes((void *)a, sizeof(TYPE), 0, 1, RA); \
-    v = __atomic_load_n(a, __ATOMIC_SEQ_CST); atomic_load_sync((void *)a, mo); note_spin((uintptr_t)a, (uint64_t)v, RA); return v; } \
+    v = __atomic_load_n(a, __ATOMIC_SEQ_CST); atomic_load_sync((void *)a, mo); ch_observe((void *)a, (uint64_t)v); note_spin((uintptr_t)a, (uint64_t)v, RA); return v; } \
 void __tsan_atomic##BITS##_store(volatile TYPE *a, TYPE v, int mo) { \
     sched_point(OP_ATOMIC, (void *)a, 1); access_bytes((void *)a, sizeof(TYPE), 1, 1, RA); \
-    __atomic_store_n(a, v, __ATOMIC_SEQ_CST); atomic_store_sync((void *)a, mo, 0); clear_spin(); } \
+    __atomic_store_n(a, v, __ATOMIC_SEQ_CST); atomic_store_sync((void *)a, mo, 0); ch_publish((void *)a, (uint64_t)v); clear_spin(); } \
 TYPE __tsan_atomic##BITS##_exchange(volatile TYPE *a, TYPE v, int mo) { TYPE o; \
     sched_point(OP_ATOMIC, (void *)a, 2); access_bytes((void *)a, sizeof(TYPE), 1, 1, RA); \
-    o = __atomic_exchange_n(a, v, __ATOMIC_SEQ_CST); atomic_load_sync((void *)a, mo == mo_release ? mo_relaxed : mo); atomic_store_sync((void *)a, mo == mo_acquire ? mo_relaxed : mo, o == v ? 2 : 1); \
+    o = __atomic_exchange_n(a, v, __ATOMIC_SEQ_CST); ch_observe((void *)a, (uint64_t)o); ch_publish((void *)a, (uint64_t)v); atomic_load_sync((void *)a, mo == mo_release ? mo_relaxed : mo); atomic_store_sync((void *)a, mo == mo_acquire ? mo_relaxed : mo, o == v ? 2 : 1); \
     if (o == v) note_spin((uintptr_t)a, (uint64_t)o, RA); else clear_spin(); return o; } \
 int __tsan_atomic##BITS##_compare_exchange_strong(volatile TYPE *a, TYPE *e, TYPE d, int mo, int fmo) { int ok; TYPE seen; \
     sched_point(OP_ATOMIC, (void *)a, 3); \
     seen = __atomic_load_n(a, __ATOMIC_SEQ_CST); \
-    if (seen == *e) { access_bytes((void *)a, sizeof(TYPE), 1, 1, RA); __atomic_store_n(a, d, __ATOMIC_SEQ_CST); ok = 1; \
+    ch_observe((void *)a, (uint64_t)seen); \
+    if (seen == *e) { access_bytes((void *)a, sizeof(TYPE), 1, 1, RA); __atomic_store_n(a, d, __ATOMIC_SEQ_CST); ok = 1; ch_publish((void *)a, (uint64_t)d); \
         atomic_load_sync((void *)a, mo == mo_release ? mo_relaxed : mo); atomic_store_sync((void *)a, mo == mo_acquire ? mo_relaxed : mo, d == seen ? 2 : 1); \
         if (d == seen) note_spin((uintptr_t)a, (uint64_t)seen, RA); else clear_spin(); } \
     else { access_bytes((void *)a, sizeof(TYPE), 0, 1, RA); *e = seen; ok = 0; atomic_load_sync((void *)a, fmo); note_spin((uintptr_t)a, (uint64_t)seen, RA); } \
@@ -227,7 +240,7 @@ TYPE __tsan_atomic##BITS##_compare_exchange_val(volatile TYPE *a, TYPE e, TYPE d
 #define ATOMIC_RMW(BITS, TYPE, NAME, EXPR) \
 TYPE __tsan_atomic##BITS##_fetch_##NAME(volatile TYPE *a, TYPE v, int mo) { TYPE o; \
     sched_point(OP_ATOMIC, (void *)a, 4); access_bytes((void *)a, sizeof(TYPE), 1, 1, RA); \
-    o = __atomic_load_n(a, __ATOMIC_SEQ_CST); __atomic_store_n(a, (TYPE)(EXPR), __ATOMIC_SEQ_CST); \
+    o = __atomic_load_n(a, __ATOMIC_SEQ_CST); __atomic_store_n(a, (TYPE)(EXPR), __ATOMIC_SEQ_CST); ch_observe((void *)a, (uint64_t)o); ch_publish((void *)a, (uint64_t)(TYPE)(EXPR)); \
     atomic_load_sync((void *)a, mo == mo_release ? mo_relaxed : mo); atomic_store_sync((void *)a, mo == mo_acquire ? mo_relaxed : mo, 1); clear_spin(); return o; }
 
 #define ALL_FOR(BITS, TYPE) ATOMIC_FAMILY(BITS, TYPE) \
@@ -248,8 +261,8 @@ void __tsan_atomic_signal_fence(int mo) { (void)mo; }
 
 /* volatile accesses of the legacy volatile + __sync idiom: release store / acquire load (x86-TSO meaning), visible steps */
 #define VOLATILE(n, TYPE) \
-    void __tsan_volatile_read##n(void *a) { sched_point(OP_ATOMIC, a, 6); access_bytes(a, n, 0, 1, RA); atomic_load_sync(a, mo_acquire); T[my_tid].barriers -= 0; note_spin((uintptr_t)a, (uint64_t)*(volatile TYPE *)a, RA); } \
-    void __tsan_volatile_write##n(void *a) { sched_point(OP_ATOMIC, a, 7); access_bytes(a, n, 1, 1, RA); atomic_store_sync(a, mo_release, 0); clear_spin(); } \
+    void __tsan_volatile_read##n(void *a) { sched_point(OP_ATOMIC, a, 6); access_bytes(a, n, 0, 1, RA); atomic_load_sync(a, mo_acquire); ch_observe(a, (uint64_t)*(volatile TYPE *)a); note_spin((uintptr_t)a, (uint64_t)*(volatile TYPE *)a, RA); } \
+    void __tsan_volatile_write##n(void *a) { sched_point(OP_ATOMIC, a, 7); access_bytes(a, n, 1, 1, RA); atomic_store_sync(a, mo_release, 0); ch_publish(a, 4); clear_spin(); } \
     void __tsan_unaligned_volatile_read##n(void *a) { __tsan_volatile_read##n(a); } \
     void __tsan_unaligned_volatile_write##n(void *a) { __tsan_volatile_write##n(a); }
 VOLATILE(1, uint8_t) VOLATILE(2, uint16_t) VOLATILE(4, uint32_t) VOLATILE(8, uint64_t)
